@@ -466,6 +466,23 @@ def c17_special(pid, prop, tier, seed, b):
             if 'f' in r['flags']:
                 exp = [x if x.startswith('/') else os.path.normpath(os.path.join(r['troot'], x)) for x in exp]
             r['expected'] = sorted(exp)
+    # the Coq model's prediction (walk + listing), on the same tree
+    mlines = []
+    for r in runs:
+        nodes = []
+        for d in r['dirs']:
+            if d != '.':
+                nodes.append('D|%s|%s|' % (os.path.dirname(d) or '.', os.path.basename(d)))
+        for d, fs in r['files'].items():
+            for f_ in fs:
+                nodes.append('F|%s|%s|' % (d, f_))
+        for p_, tgt in r['links'].items():
+            nodes.append('LD|%s|%s|%s' % (os.path.dirname(p_) or '.', os.path.basename(p_), tgt))
+        mlines.append(line('seqls', r['flags'], r['troot'], len(r['args']), *(r['args'] + nodes)))
+    mout = infra.run_driver(V + '/bin/mldriver', mlines)
+    for r, mo in zip(runs, mout):
+        r['model'] = sorted(unhx(x).decode('latin-1') for x in mo.split(' ')[1:]) if mo.startswith('OK') else None
+        r['model_raw'] = mo[:300]
     for r, outs in zip(runs, results):
         text = 'seqls -%s %r  GOMAXPROCS=%s workers=%s tree: %d dirs %d links%s' % (
             r['flags'], r['args'], r['gmp'], r['workers'], len(r['dirs']), len(r['links']), ' (aliased/cyclic links)' if r['aliased'] else '')
@@ -490,6 +507,12 @@ def c17_special(pid, prop, tier, seed, b):
                 f.append('printed lines differ from the listing of the selected directories: missing %r extra %r' % (miss[:3], extra[:3]))
         if f:
             failures.append((c, f))
+        if not r['aliased'] and outs[0] is not None:
+            c['model'] = r['model_raw']
+            if r['model'] is None or outs[0] != r['model']:
+                md = r['model'] or []
+                disagreements.append((c, ['model predicts %d lines, seqls printed %d: model-only %r impl-only %r' % (
+                    len(md), len(outs[0]), [x for x in md if x not in outs[0]][:3], [x for x in outs[0] if x not in md][:3])]))
     for d in set(r['troot'] for r in runs):
         shutil.rmtree(d, ignore_errors=True)
     return cases, impl_lines, failures, disagreements, dict()
